@@ -50,6 +50,9 @@ def seeds():
                 whats.append(esc(str(r["what"])[:160]))
         if demo_state == "passes":
             verdicts.append("(demo no longer fails on the repaired tree: neutralised by a later fix)")
+        for k, label in (("note", "note"), ("rebased", "rebased"), ("stale_patch", "patch stale")):
+            if m.get(k):
+                verdicts.append("(%s: %s)" % (label, esc(str(m[k])[:260])))
         out.append("| %s | %s | %s | %s | %s | %s |" % (sid, m.get("property"), esc(m.get("title", m.get("what_breaks", ""))[:200]), esc(m.get("needs_to_manifest", "")[:220]),
                                                   "; ".join(verdicts) or "not run yet", "; ".join(whats)))
     return "\n".join(out)
